@@ -233,6 +233,30 @@ def reset_process_state():
                         pass
     except Exception:
         pass
+    # lru_cache'd methods keep every ClassDiagram (one per SymbolGraph) they were called on: without this the
+    # worker's heap, and with it every gc.collect(), grows with the number of cases
+    try:
+        from krrood.class_diagrams.class_diagram import ClassDiagram
+        from krrood.ontomatic.property_descriptor.property_descriptor import PropertyDescriptor
+
+        todo = [ClassDiagram, PropertyDescriptor]
+        seen = set()
+        while todo:
+            c = todo.pop()
+            if c in seen:
+                continue
+            seen.add(c)
+            todo.extend(c.__subclasses__())
+            for v in list(vars(c).values()):
+                v = getattr(v, "__func__", v)
+                cc = getattr(v, "cache_clear", None)
+                if cc is not None:
+                    try:
+                        cc()
+                    except Exception:
+                        pass
+    except Exception:
+        pass
     gc.collect()
     SymbolGraph()
 
